@@ -1055,6 +1055,16 @@ def _life_coverage(c: Ctx, e: Func) -> dict[str, str]:
         if isinstance(lst, ast.Attribute) and lst.attr == "children" and isinstance(lst.value, ast.Name):
             owner = lst.value.id
             src = _loop_source(h, owner)
+            if src is None and owner in [a.arg for a in h.node.args.posonlyargs + h.node.args.args]:
+                # children of a token the function receives: a nested list unless every caller passes a top-level inline token
+                for cs in c.cg.callers.get(h, []):
+                    arg = c.eff.arg_for_param(cs, h, owner)
+                    if isinstance(arg, ast.Name):
+                        s2 = _loop_source(cs.caller, arg.id)
+                        if s2 is not None:
+                            fake = ast.Attribute(value=ast.Name(id=arg.id, ctx=ast.Load()), attr="children", ctx=ast.Load())
+                            classify_list(cs.caller, fake, depth + 1, via)
+                return
             if src is None:
                 return
             stxt = U(src)
@@ -1093,6 +1103,16 @@ def _life_coverage(c: Ctx, e: Func) -> dict[str, str]:
             src = _loop_source(e, root.id)
             if src is not None:
                 classify_list(e, src, 0, "")
+            elif root.id in [a.arg for a in e.node.args.posonlyargs + e.node.args.args]:
+                # the token is handed in by the callers: which list does each caller take it from?
+                for cs in c.cg.callers.get(e, []):
+                    arg = c.eff.arg_for_param(cs, e, root.id)
+                    if isinstance(arg, ast.Name):
+                        src2 = _loop_source(cs.caller, arg.id)
+                        if src2 is not None:
+                            classify_list(cs.caller, src2, 1, f"via {e.short}: ")
+                    elif isinstance(arg, ast.Subscript) and not isinstance(arg.slice, ast.Slice):
+                        classify_list(cs.caller, arg.value, 1, f"via {e.short}: ")
     return tags
 
 
